@@ -106,6 +106,25 @@ def redundant_colons(tree):
     return n
 
 
+def math_row_separators(tree):
+    """number of semicolons that separate rows of math call arguments (children of an Args node; code arguments hold none)"""
+    kind, x = tree
+    if not isinstance(x, list):
+        return 0
+    return sum(math_row_separators(c) for c in x) + (sum(1 for c in x if c[0] == 'Semicolon') if kind == 'Args' else 0)
+
+
+def code_statement_gaps(tree):
+    """places where a semicolon may legitimately appear or vanish: between statements of code bodies"""
+    kind, x = tree
+    if not isinstance(x, list):
+        return 0
+    n = sum(code_statement_gaps(c) for c in x)
+    if kind == 'Code':
+        n += sum(1 for c in x if c[0] not in ('Space', 'Semicolon', 'LineComment', 'BlockComment'))
+    return n
+
+
 def expected_streams(tree):
     """(token stream without comments and layout characters, list of comment texts) of a parsed shape"""
     toks = ''
@@ -252,6 +271,8 @@ def explore(S, want=('C06',), per_kind=10, max_nodes=14, deep=False):
                 # (`not /* c */ in` -> `/* c */ not in`), which changes neither the tree nor the order of the comments
                 exp_toks, exp_cmts = expected_streams(tree)
                 ncolon = redundant_colons(tree)
+                nrows = math_row_separators(tree)
+                ngaps = code_statement_gaps(tree)
                 expected = (exp_toks, exp_cmts)
                 for mode, at in atoms_modes(d).items():
                     full = ''
@@ -263,6 +284,17 @@ def explore(S, want=('C06',), per_kind=10, max_nodes=14, deep=False):
                             full += strip_layout(nd.into_text().concrete()) if nd is not None else '�'
                     got = full
                     same = bool(streams_match(full, exp_toks, exp_cmts, ncolon))
+                    # row separators of math arguments are tokens, not layout (semicolons are otherwise ignored: code statements may gain / lose
+                    # them).  Decided for the math mode only: the shape is taken out of its context, and in another mode it is another construct.
+                    semis = sum((a[1].concrete().count(';') if a[0] == 't' and a[1].is_concrete() else 0) for a in at)
+                    for a in at:
+                        if a[0] == 'o':
+                            nd_ = index.get(a[2][0]) if a[2] else None
+                            if nd_ is not None:
+                                semis += nd_.into_text().concrete().count(';')
+                    semi_ok = nrows <= semis <= nrows + ngaps + src_text.count(';') - nrows
+                    if nrows and not semi_ok:
+                        same = b_and(same, b_not(i_eq(c0.get('mode').disc, 3, 64)))
                     if want[0] == 'C05':
                         continue            # only panic freedom is asked for
                     ctx.must_hold(same, '%s:tokens-added-dropped-or-reordered' % want[0],
@@ -363,6 +395,9 @@ def confirm(S, info):
             if strip_layout(out) != strip_layout(doc):
                 return dict(api='Typstyle::format_content', source=doc, width=w, output=out,
                             what='tokens changed: %s -> %s' % (show(doc), show(out)))
+            if doc.lstrip().startswith('$') and '#' not in doc and out.count(';') != doc.count(';'):
+                return dict(api='Typstyle::format_content', source=doc, width=w, output=out,
+                            what='row separators of math arguments changed: %s -> %s' % (show(doc), show(out)))
     return None
 
 
